@@ -9,6 +9,8 @@ META = {
                 "pass 4: EA-inode reference consolidation, > 128-byte inodes, failing reconnects; pass 5: bigalloc, BLOCK_UNINIT reconstruction by the loader (assumed to "
                 "mark no block that pass 1 does not mark)"],
 }
+CT_GROW_UW = ["main.%d:2000" % i for i in range(5)] + ["alloc_size_dir.0:2000", "alloc_size_dir.1:60", "ref_hash_of_leaf.0:60",
+              "calculate_tree.0:60", "calculate_tree.1:60", "calculate_tree.2:60"]
 HARNESSES = [
     dict(name="fixproblem", src="fixproblem.c",
          funcs=["fix_problem", "find_latch"],
@@ -94,10 +96,12 @@ HARNESSES = [
          funcs=["calculate_tree", "alloc_blocks", "set_root_node", "set_int_node", "get_next_block"],
          cut_statics={"e2fsck/rehash.c": ["alloc_size_dir"]},
          cbmc_flags=["--max-field-sensitivity-array-size", "8192"],
-         configs=[{"NLEAF": n} for n in (1, 4, 5, 28, 29)] + [{"NLEAF": 50, "_tier": "thorough"}],
+         configs=[{"NLEAF": n} for n in (1, 4, 5, 28, 29)] + [{"NLEAF": 50, "_tier": "thorough"}]
+                 + [{"NLEAF": n, "GROW": None, "_unwindset": CT_GROW_UW} for n in (5, 29)],
          unwind=9, unwindset=["main.0:60", "main.1:60", "main.2:9", "ref_hash_of_leaf.0:60", "calculate_tree.0:60", "calculate_tree.1:60", "calculate_tree.2:60"],
          backends=["default", "kissat"],
-         bound="block size 64 (root 4 entries, interior node 7), 1/4/5/28/29 (thorough: 50, two second-level nodes) leaf blocks: one-, two- and three-level trees; leaf hashes, "
+         bound="GROW configs: the output area is exactly root + leaves and is MOVED (old area poisoned) when the first interior node is appended; "
+               "block size 64 (root 4 entries, interior node 7), 1/4/5/28/29 (thorough: 50, two second-level nodes) leaf blocks: one-, two- and three-level trees; leaf hashes, "
                "inode numbers, hash version symbolic"),
 ]
 P5_UW = ["main.%d:200" % i for i in range(48)] + ["fix_problem.%d:18" % i for i in range(4)] + ["vf_bit.0:18", "vf_get_range.0:9",
